@@ -51,6 +51,7 @@ func (Prop) Plan(tier string) []lib.Workload {
 		{Name: "node-seq", Cases: 500 * mult, MinNontrivial: 200, CaseTimeout: ct},
 		{Name: "client-seq", Cases: 200 * mult, MinNontrivial: 80, CaseTimeout: ct},
 		{Name: "race", Cases: raceRounds(tier), Race: true, MinNontrivial: 10, CaseTimeout: ct},
+		{Name: "race-witness", Cases: raceRounds(tier), Race: true, MinNontrivial: 10, CaseTimeout: ct},
 	}
 }
 
@@ -70,6 +71,8 @@ func (Prop) RunCase(c *lib.Case) {
 		runNodeSeq(c)
 	case "client-seq":
 		runClient(c)
+	case "race-witness":
+		runRaceWitness(c)
 	case "race":
 		runRace(c)
 	}
